@@ -196,6 +196,14 @@ fw_check("C19",
     technique="deterministic simulation of reload sequences (identical, rule removed/added, new rule sets, rules-version counter preset near its wrap) interleaved with traffic through real config reloads, against a reference that revalidates each tracked flow's original direction under the current rules",
     level_text="Seeded search over reload/traffic histories: a tracked flow lets a rule-less packet through only if the current rules still allow the flow's original direction, otherwise it is forgotten; after the version counter wraps every flow needs a rule again; a flow that is live, still allowed and has seen no rule change since its last packet must not be cut (checked when the routine cache is off). Evidence, not proof.")
 
+engine_a("C30",
+    scenarios=["C30.policy"],
+    technique="deterministic simulation of a node with 1-3 peers on the simulated clock; every real connection-manager traffic check is wrapped and its effects (removed, close sent, probe sent, handshake started) compared with a decision table evaluated on inputs observed by the harness itself",
+    rule="one run = check interval 1-4 s, pending-deletion 1-5 s, inactivity timeout 4-43 s, drop_inactive / disconnect_invalid drawn from the tape and toggled by reload, peers under two CAs some with certificates expiring during the run, 40-200 (thorough: x4) events over 40-160 s (thorough: up to 600 s): inbound/outbound traffic bursts, rehandshakes creating non-primary tunnels, blocklisting, CA removal/restoration, own certificate re-issue, counters preset next to the rekey threshold and the ceiling, node stalls, partitions, transport loss; distinct = distinct abstract trace hash; non-trivial = the run contained checks of alive tunnels and at least one check that had to tear a tunnel down",
+    level_text="Seeded search over traffic/clock/reload histories: at each check, blocklisted => removed; invalid and disconnect_invalid => removed; counter at the ceiling => removed; authenticated inbound traffic since the last check (observed by the harness through the replay window, not through nebula's flag) => not removed; a probe was sent at the previous check and still no inbound => removed; any other removal must be a previously marked traffic-less tunnel or an idle primary with drop_inactive and idle >= timeout; a handshake started by the check requires a changed local certificate or a counter past the rekey threshold, and an alive primary with such a reason must start one. Evidence, not proof. Limit: expiry is reached by advancing the shared clock, not by skew.",
+    quick=tier(2500, 35),
+)
+
 NOT_APPLICABLE = {
     "C03": "pure encode/decode round trip over input bytes; no clock, schedule, fault or second party for a simulator to control",
     "C04": "pure function of (certificate to sign, signer); offline CLI; nothing to schedule or fault",
